@@ -329,6 +329,10 @@ def oracle_c05(rows):
                 # owner::cancel_tx updates the wallet state first (refresh, kernels, scan, expiry), so
                 # the snapshot diff is not the cancel's alone: the frame is the model's business here
                 # (correspondence); the rollback of the cancelled reservations is still checked
+                if s["rc"] == [0] and s["extra"].get("target_mined"):
+                    fails.append(_fail(r, idx, "owner cancel_tx (which refreshes from the node first) accepted the cancel of "
+                                               "transaction id=%s slate=%s that is already in the chain"
+                                       % (s["op"]["id"], s["op"]["slate"])))
                 if s["rc"] == [0]:
                     ptx = {(t["parent"], t["id"]): t for t in prev["txs"]}
                     after = sv_map(snap)
